@@ -1506,16 +1506,9 @@ class sptensor:
         array([[ 0.4718..., -0.8816...],
                [-0.8816..., -0.4718...]])
         """
-        old = np.setdiff1d(np.arange(self.ndims), n).astype(int)
-        # tnt calculation is a workaround for missing sptenmat
-        mutatable_sptensor = (
-            self.copy().reshape((np.prod(np.array(self.shape)[old]), 1), old).squeeze()
-        )
-        if isinstance(mutatable_sptensor, (int, float, np.generic)):
-            raise ValueError(
-                "Cannot call nvecs on sptensor with only singleton dimensions"
-            )
-        tnt = mutatable_sptensor.spmatrix().transpose()
+        # Mode-n unfolding as a sparse matrix (shape[n] rows, also for singleton
+        # modes and empty trailing slices), transposed
+        tnt = self.to_sptenmat(np.array([n])).double().astype(float).transpose()
         y = tnt.transpose().dot(tnt)
         if r < y.shape[0] - 1:
             # y is symmetric: eigsh returns real eigenpairs
